@@ -243,6 +243,8 @@ def jobs(tier):
     sizes = [(2, 2)] if q else [(2, 2), (3, 3), (2, 3)]
     for (n, m) in sizes:
         for strict in (False, True):
+            if strict and (n, m) == (3, 3):
+                continue        # 3x3 with strict comparisons does not finish within the solver limit; 2x3 is the strict bound
             js.append(job_match_notes(n, m, 'onsets', strict, None))
             for ratio in ((0.25,) if q else (0.2, 0.5)):
                 js.append(job_match_notes(n, m, 'offsets', strict, ratio))
